@@ -34,6 +34,12 @@ structure Staged (s0 : State) (w : WS) (fresh0 : List (UUID × UUID)) (r : Run) 
 def J0 (s0 : State) (w : WS) (fresh0 : List (UUID × UUID)) (r : Run) : Prop :=
   RInv s0 w fresh0 r ∧ r.reserved = [] ∧ r.removedH = []
 
+/-- every updated node of the write set has been reserved, at the version the transaction read -/
+def Covered (w : WS) (r : Run) : Prop := r.reserved.map (fun h => (h.lid, h.version)) = w.updated
+
+/-- `Staged` and `Covered`: the invariant from a successful `commitUpdatedNodes` to the flip -/
+def SCov (s0 : State) (w : WS) (fresh0 : List (UUID × UUID)) (r : Run) : Prop := Staged s0 w fresh0 r ∧ Covered w r
+
 section
 variable {s0 : State} {w : WS} {fresh0 : List (UUID × UUID)}
 
@@ -53,6 +59,12 @@ instance : Frame (Staged s0 w fresh0) where
     · rw [h1]; exact h.resSub
     · intro x hx; rw [h2] at hx; exact h.remAct x hx
     · intro x hx; rw [h2] at hx; exact h.remSub x hx
+
+instance : Frame (Covered w) where
+  frame r r' h _ _ _ h1 _ := by unfold Covered at *; rw [h1]; exact h
+
+instance : Frame (SCov s0 w fresh0) where
+  frame r r' h hr hb hf h1 h2 := ⟨Frame.frame r r' h.1 hr hb hf h1 h2, Frame.frame r r' h.2 hr hb hf h1 h2⟩
 
 theorem staged_of_j0 {r : Run} (h : J0 s0 w fresh0 r) : Staged s0 w fresh0 r := by
   obtain ⟨a, b, c⟩ := h
@@ -146,6 +158,73 @@ theorem reserveAll_shape {now hour : Int} :
           · exact .inl z
           · exact .inr ⟨q, tf2 q hq, eq⟩
 
+theorem reserveAll_lidver {now hour : Int} :
+    ∀ (pairs : List (Handle × Int)) (fr fr' : List (UUID × UUID)) (res : List Handle),
+      reserveAll now hour fr pairs = some (res, fr') →
+      res.map (fun h => (h.lid, h.version)) = pairs.map (fun p => (p.1.lid, p.2)) := by
+  intro pairs
+  induction pairs with
+  | nil =>
+    intro fr fr' res e
+    simp only [reserveAll, Option.some.injEq, Prod.mk.injEq] at e
+    obtain ⟨rfl, rfl⟩ := e
+    rfl
+  | cons p t ih =>
+    intro fr fr' res e
+    obtain ⟨h, v⟩ := p
+    unfold reserveAll at e
+    simp only at e
+    split at e
+    · simp at e
+    · rename_i h1 e1
+      split at e
+      · simp at e
+      · rename_i hs fr2 e2
+        simp only [Option.some.injEq, Prod.mk.injEq] at e
+        obtain ⟨rfl, rfl⟩ := e
+        obtain ⟨r1, _, r3, _, r5, _⟩ := reserveOne_spec now hour _ h h1 v e1
+        simp only [List.map_cons, ih _ _ _ e2, r1, r3, r5]
+
+/-- when every updated node has a handle among those read, the pairs cover the write set in order -/
+theorem pairs_cover (u : List (UUID × Int)) (hs : List Handle) (hall : ∀ x ∈ u, ∃ h ∈ hs, h.lid = x.1) :
+    (u.filterMap (fun (x : UUID × Int) => (hs.find? (·.lid == x.1)).map (fun h => (h, x.2)))).map (fun p => (p.1.lid, p.2)) = u := by
+  induction u with
+  | nil => rfl
+  | cons x t ih =>
+    rw [List.filterMap_cons]
+    cases hf : hs.find? (·.lid == x.1) with
+    | none =>
+      obtain ⟨h, hm, e⟩ := hall x (List.mem_cons_self ..)
+      have := List.find?_eq_none.mp hf h hm
+      simp [e] at this
+    | some h =>
+      simp only [Option.map_some, List.map_cons]
+      have : h.lid = x.1 := by
+        have := List.find?_some hf
+        simpa using this
+      rw [this, ih (fun y hy => hall y (List.mem_cons_of_mem _ hy))]
+
+theorem filterMap_length_all {α β : Type} (f : α → Option β) : ∀ (l : List α), (l.filterMap f).length = l.length →
+    ∀ a ∈ l, ∃ b, f a = some b := by
+  intro l
+  induction l with
+  | nil => intro _ a ha; cases ha
+  | cons x t ih =>
+    intro hl a ha
+    rw [List.filterMap_cons] at hl
+    cases hx : f x with
+    | none =>
+      rw [hx] at hl
+      have := List.length_filterMap_le f t
+      simp only [List.length_cons] at hl
+      omega
+    | some b =>
+      rw [hx] at hl
+      simp only [List.length_cons, Nat.add_right_cancel_iff] at hl
+      rcases List.mem_cons.mp ha with rfl | ha'
+      · exact ⟨b, hx⟩
+      · exact ih hl a ha'
+
 /-- a handle that is `Known`, at a logical id that is not one of the transaction's new nodes, has the start state's active id -/
 theorem oldAct_of_known {h : Handle} (pre : Pre s0 w fresh0) (hk : Known s0 w fresh0 h) (hn : h.lid ∉ w.newIds) : OldAct s0 h := by
   rcases hk.1 with ⟨a, _⟩ | ⟨h0, e0, e1⟩
@@ -155,14 +234,20 @@ theorem oldAct_of_known {h : Handle} (pre : Pre s0 w fresh0) (hk : Known s0 w fr
 /-! ### `regGet` with what it returns -/
 
 theorem regGet_known {I : Run → Prop} [Frame I] (hI : ∀ r, I r → RInv s0 w fresh0 r) (ids : List UUID) :
-    Triple I (regGet ids) (fun hs r => I r ∧ ((∀ h ∈ hs, Known s0 w fresh0 h) ∧ ∀ h ∈ hs, h.lid ∈ ids)) I := by
+    Triple I (regGet ids) (fun hs r => I r ∧ ((∀ h ∈ hs, Known s0 w fresh0 h) ∧ (∀ h ∈ hs, h.lid ∈ ids) ∧
+      (hs.length = ids.length → ∀ i ∈ ids, ∃ h ∈ hs, h.lid = i))) I := by
   unfold regGet
-  refine Triple.bind (Q1 := fun s r => I r ∧ ((∀ h ∈ ids.filterMap s.reg, Known s0 w fresh0 h) ∧ ∀ h ∈ ids.filterMap s.reg, h.lid ∈ ids))
-    (Triple.getS (fun r h => ⟨h, (hI r h).1.known_of_filterMap ids, ?_⟩)) (fun s => ?_)
+  refine Triple.bind (Q1 := fun s r => I r ∧ ((∀ h ∈ ids.filterMap s.reg, Known s0 w fresh0 h) ∧ (∀ h ∈ ids.filterMap s.reg, h.lid ∈ ids) ∧
+      ((ids.filterMap s.reg).length = ids.length → ∀ i ∈ ids, ∃ h ∈ ids.filterMap s.reg, h.lid = i)))
+    (Triple.getS (fun r h => ⟨h, (hI r h).1.known_of_filterMap ids, ?_, ?_⟩)) (fun s => ?_)
   · intro x hx
     obtain ⟨i, hi, e⟩ := List.mem_filterMap.mp hx
     rw [(hI r h).1.regwf i x e]; exact hi
-  refine Triple.bind (Q1 := fun _ r => I r ∧ ((∀ h ∈ ids.filterMap s.reg, Known s0 w fresh0 h) ∧ ∀ h ∈ ids.filterMap s.reg, h.lid ∈ ids)) ?_ (fun _ => ?_)
+  · intro hl i hi
+    obtain ⟨b, hb⟩ := filterMap_length_all r.s.reg ids hl i hi
+    exact ⟨b, List.mem_filterMap.mpr ⟨i, hi, hb⟩, (hI r h).1.regwf i b hb⟩
+  refine Triple.bind (Q1 := fun _ r => I r ∧ ((∀ h ∈ ids.filterMap s.reg, Known s0 w fresh0 h) ∧ (∀ h ∈ ids.filterMap s.reg, h.lid ∈ ids) ∧
+      ((ids.filterMap s.reg).length = ids.length → ∀ i ∈ ids, ∃ h ∈ ids.filterMap s.reg, h.lid = i))) ?_ (fun _ => ?_)
   · exact Triple.call _ _ _ _ _ (fun r _ _ hr => ⟨Frame.frame r _ hr.1 rfl rfl rfl rfl rfl, hr.2⟩)
       (fun r _ _ _ hr => Frame.frame r _ hr.1 rfl rfl rfl rfl rfl) (fun r _ _ hr => Frame.frame r _ hr.1 rfl rfl rfl rfl rfl)
   · exact Triple.pure _ (fun _ h => h)
@@ -195,24 +280,36 @@ theorem j0_commitNewRoots (pre : Pre s0 w fresh0) : Preserves (J0 s0 w fresh0) (
 /-! ### `commitUpdatedNodes` establishes `Staged` -/
 
 theorem staged_commitUpdated (pre : Pre s0 w fresh0) (pre2 : Pre2 s0 w fresh0) :
-    Triple (J0 s0 w fresh0) (commitUpdated w) (fun _ => Staged s0 w fresh0) (fun _ => True) := by
+    Triple (J0 s0 w fresh0) (commitUpdated w) (fun ok r => Staged s0 w fresh0 r ∧ (ok = true → Covered w r)) (fun _ => True) := by
   unfold commitUpdated
   simp only
   split
-  · exact Triple.pure _ (fun _ h => staged_of_j0 h)
+  · rename_i hemp
+    refine Triple.pure _ (fun r h => ⟨staged_of_j0 h, fun _ => ?_⟩)
+    unfold Covered
+    rw [h.2.1, List.isEmpty_iff.mp hemp]; rfl
   · refine Triple.bind (regGet_known (fun _ h => h.1) _).dropE (fun hs r hr => ?_)
-    obtain ⟨hJ, hk, hlid⟩ := hr
+    obtain ⟨hJ, hk, hlid, hall⟩ := hr
     revert r
     show Triple (J0 s0 w fresh0) _ _ _
     split
-    · exact Triple.pure _ (fun _ h => staged_of_j0 h)
-    · refine Triple.bind (Q1 := fun r0 r => J0 s0 w fresh0 r ∧ ∀ q ∈ r0.fresh, q ∈ fresh0) (Triple.get (fun r h => ⟨h, h.1.2⟩)) (fun r0 r hr => ?_)
+    · exact Triple.pure _ (fun _ h => ⟨staged_of_j0 h, fun e => by cases e⟩)
+    · rename_i hlen
+      refine Triple.bind (Q1 := fun r0 r => J0 s0 w fresh0 r ∧ ∀ q ∈ r0.fresh, q ∈ fresh0) (Triple.get (fun r h => ⟨h, h.1.2⟩)) (fun r0 r hr => ?_)
       obtain ⟨hJ, hfr⟩ := hr
       revert r
       show Triple (J0 s0 w fresh0) _ _ _
       split
-      · exact Triple.pure _ (fun _ h => staged_of_j0 h)
+      · exact Triple.pure _ (fun _ h => ⟨staged_of_j0 h, fun e => by cases e⟩)
       · rename_i res fr' e
+        have hcov : res.map (fun h => (h.lid, h.version)) = w.updated := by
+          rw [reserveAll_lidver _ _ _ _ e]
+          apply pairs_cover
+          intro x hx
+          have hl : hs.length = (w.updated.map (·.1)).length := by
+            rw [List.length_map]
+            simpa using hlen
+          exact hall hl x.1 (List.mem_map_of_mem (f := (·.1)) hx)
         obtain ⟨k1, k2⟩ := reserveAll_known _ _ _ _ e hfr (pairs_known _ hs hk)
         obtain ⟨sh1, sh2⟩ := reserveAll_shape _ _ _ _ e
         have hsub : (res.map (·.lid)).Sublist (w.updated.map (·.1)) := by rw [sh1]; exact pairs_lids_sublist _ hs
@@ -231,7 +328,8 @@ theorem staged_commitUpdated (pre : Pre s0 w fresh0) (pre2 : Pre2 s0 w fresh0) :
             rw [State.addBlobs_blob]
             simp only [Bool.or_eq_true, decide_eq_true_eq]
             exact .inr (List.mem_map_of_mem (f := (·.inactive)) hm)
-        refine Triple.bind (Q1 := fun _ => Staged s0 w fresh0) (Triple.modify _ (fun r hr => ?_)) (fun _ => Triple.pure _ (fun _ h => h))
+        refine Triple.bind (Q1 := fun _ r => Staged s0 w fresh0 r ∧ Covered w r) (Triple.modify _ (fun r hr => ⟨?_, hcov⟩))
+          (fun _ => Triple.pure _ (fun _ h => ⟨h.1, fun _ => h.2⟩))
         obtain ⟨⟨hri, _, hrm⟩, hfacts⟩ := hr
         refine ⟨hri, hfacts, ?_, ?_, hsub, ?_, ?_⟩
         · intro h hm
@@ -277,7 +375,7 @@ theorem staged_commitRemoved (pre : Pre s0 w fresh0) (pre2 : Pre2 s0 w fresh0) :
   split
   · exact Triple.pure _ (fun _ h => h)
   · refine Triple.bind (regGet_known (fun _ h => h.rinv) _).dropE (fun hs r hr => ?_)
-    obtain ⟨hJ, hk, hlid⟩ := hr
+    obtain ⟨hJ, hk, hlid, hall⟩ := hr
     revert r
     show Triple (Staged s0 w fresh0) _ _ _
     refine Triple.bind (Q1 := fun _ => Staged s0 w fresh0) (Triple.get (fun _ h => h)) (fun r0 => ?_)
@@ -315,36 +413,66 @@ theorem staged_commitAdded (pre : Pre s0 w fresh0) (pre2 : Pre2 s0 w fresh0) : P
       exact pre2.updOld _ (hr.resLid hg) (e ▸ addedIds_new hi)
     · exact G.callEff _ _ _ _ _ (fun r o t hr => hr.addBlobs o t _)
 
+/-- the effectful steps after `commitUpdatedNodes` do not touch the `reserved` list -/
+theorem cov_commitRemoved : Triple (Covered w) (commitRemoved w) (fun _ => Covered w) (fun _ => True) := by
+  unfold commitRemoved
+  simp only
+  split
+  · exact Triple.pure _ (fun _ h => h)
+  · refine Triple.bind (gen_regGet _).dropE (fun hs => ?_)
+    refine Triple.bind (Q1 := fun _ => Covered w) (Triple.get (fun _ h => h)) (fun r0 => ?_)
+    split
+    · exact Triple.pure _ (fun _ h => h)
+    · refine Triple.bind (Q1 := fun _ => Covered w) ?_ (fun _ => ?_)
+      · exact Triple.call _ _ _ _ _ (fun _ _ _ h => h) (fun _ _ _ _ _ => trivial) (fun _ _ _ _ => trivial)
+      · exact Triple.bind (Q1 := fun _ => Covered w) (Triple.modify _ (fun _ h => h)) (fun _ => Triple.pure _ (fun _ h => h))
+
+theorem cov_commitAdded : Preserves (Covered w) (commitAdded w) := by
+  unfold commitAdded
+  simp only
+  split
+  · exact G.pure _
+  · exact G.bind (G.callEff _ _ _ _ _ (fun _ _ _ h => h)) (fun _ => G.callEff _ _ _ _ _ (fun _ _ _ h => h))
+
 theorem staged_phase1Body (pre : Pre s0 w fresh0) (pre2 : Pre2 s0 w fresh0) :
-    Triple (J0 s0 w fresh0) (phase1Body w) (fun _ => Staged s0 w fresh0) (fun _ => True) := by
+    Triple (J0 s0 w fresh0) (phase1Body w) (fun ok r => Staged s0 w fresh0 r ∧ (ok = true → Covered w r)) (fun _ => True) := by
   unfold phase1Body
   refine Triple.bind (gen_logStep _).dropE (fun _ => ?_)
   refine Triple.bind j0_addValues.dropE (fun _ => ?_)
   refine Triple.bind (gen_logStep _).dropE (fun _ => ?_)
   refine Triple.bind (j0_commitNewRoots pre).dropE (fun ok => ?_)
   split
-  · exact Triple.pure _ (fun _ h => staged_of_j0 h)
+  · exact Triple.pure _ (fun _ h => ⟨staged_of_j0 h, fun e => by cases e⟩)
   refine Triple.bind (gen_logStep _).dropE (fun _ => ?_)
   refine Triple.bind (gen_fetchedIntact w).dropE (fun ok => ?_)
   split
-  · exact Triple.pure _ (fun _ h => staged_of_j0 h)
+  · exact Triple.pure _ (fun _ h => ⟨staged_of_j0 h, fun e => by cases e⟩)
   refine Triple.bind (staged_commitUpdated pre pre2) (fun ok => ?_)
-  refine Triple.bind (gen_logStep _).dropE (fun _ => ?_)
-  split
-  · exact Triple.pure _ (fun _ h => h)
-  refine Triple.bind (gen_logStep _).dropE (fun _ => ?_)
-  refine Triple.bind (staged_commitRemoved pre pre2) (fun ok => ?_)
-  split
-  · exact Triple.pure _ (fun _ h => h)
-  refine Triple.bind (gen_logStep _).dropE (fun _ => ?_)
-  exact Triple.bind (staged_commitAdded pre pre2).dropE (fun _ => Triple.pure _ (fun _ h => h))
+  cases ok with
+  | false =>
+    refine Triple.bind (Q1 := fun _ => Staged s0 w fresh0) (Triple.conseq (gen_logStep _).dropE (fun _ h => h.1) (fun _ _ h => h) (fun _ h => h)) (fun _ => ?_)
+    simp only [Bool.not_false, ↓reduceIte]
+    exact Triple.pure _ (fun _ h => ⟨h, fun e => by cases e⟩)
+  | true =>
+    refine Triple.bind (Q1 := fun _ => SCov s0 w fresh0) (Triple.conseq (gen_logStep _).dropE (fun _ h => ⟨h.1, h.2 rfl⟩) (fun _ _ h => h) (fun _ h => h)) (fun _ => ?_)
+    simp only [Bool.not_true, Bool.false_eq_true, ↓reduceIte]
+    refine Triple.bind (gen_logStep _).dropE (fun _ => ?_)
+    refine Triple.bind (Q1 := fun _ => SCov s0 w fresh0)
+      (Triple.conseq (Triple.and (staged_commitRemoved pre pre2) cov_commitRemoved) (fun _ h => h) (fun _ _ h => h) (fun _ _ => trivial)) (fun ok => ?_)
+    split
+    · exact Triple.pure _ (fun _ h => ⟨h.1, fun e => by cases e⟩)
+    refine Triple.bind (gen_logStep _).dropE (fun _ => ?_)
+    refine Triple.bind (Q1 := fun _ => SCov s0 w fresh0)
+      (Triple.conseq (Triple.and (staged_commitAdded pre pre2) cov_commitAdded) (fun _ h => h) (fun _ _ h => h) (fun _ _ => trivial)) (fun _ => ?_)
+    exact Triple.pure _ (fun _ h => ⟨h.1, fun _ => h.2⟩)
 
 /-- **phase 1, when it succeeds, has staged everything** -/
 theorem staged_phase1 (pre : Pre s0 w fresh0) (pre2 : Pre2 s0 w fresh0) (n : Nat) :
-    Triple (J0 s0 w fresh0) (phase1 w n) (fun _ => Staged s0 w fresh0) (fun _ => True) := by
+    Triple (J0 s0 w fresh0) (phase1 w n) (fun _ r => Staged s0 w fresh0 r ∧ (w.hasTracked = true → Covered w r)) (fun _ => True) := by
   unfold phase1
   split
-  · exact Triple.pure _ (fun _ h => staged_of_j0 h)
+  · rename_i hnt
+    exact Triple.pure _ (fun _ h => ⟨staged_of_j0 h, fun e => by simp [e] at hnt⟩)
   refine Triple.bind (gen_logStep _).dropE (fun _ => ?_)
   refine Triple.bind (gen_lockItems w).dropE (fun _ => ?_)
   refine Triple.bind (gen_mergeNodesKeys w).dropE (fun _ => ?_)
@@ -352,9 +480,13 @@ theorem staged_phase1 (pre : Pre s0 w fresh0) (pre2 : Pre2 s0 w fresh0) (n : Nat
   split
   · exact giveUpLocked_raises
   refine Triple.bind (staged_phase1Body pre pre2) (fun ok => ?_)
-  split
-  · exact conflictRound_raises w n
-  · exact (gen_finishPhase1 w).dropE
+  cases ok with
+  | false =>
+    simp only [Bool.not_false, ↓reduceIte]
+    exact conflictRound_raises w n
+  | true =>
+    simp only [Bool.not_true, Bool.false_eq_true, ↓reduceIte]
+    exact Triple.conseq (gen_finishPhase1 (I := SCov s0 w fresh0) w).dropE (fun _ h => ⟨h.1, h.2 trivial⟩) (fun _ _ h => ⟨h.1, fun _ => h.2⟩) (fun _ h => h)
 
 end
 end Sop.Commit
